@@ -157,7 +157,7 @@ def run(ctx, rep):
     s0 = s0l[0]
     ssite = {'file': s0['file'], 'line': s0['line']}
     helpers = tuple(f['name'] for f in fns if f['name'] not in ('remove_configuration_from_attributes', 'strip_configuration_attribute', 'typeshare'))
-    v = inline.view(ctx, s0, depth=4, force=helpers)
+    v = inline.view(ctx, s0, depth=5, force=helpers, mir=True)
     TRUNC = ('filter', 'skip', 'take', 'step_by', 'take_while', 'skip_while', 'nth', 'last', 'first', 'next', 'find', 'rev_take')
 
     def source(x):
@@ -204,6 +204,10 @@ def run(ctx, rep):
             r_ = vt.unvar(c['recv'])
             while isinstance(r_, dict) and r_.get('k') in ('ref', 'deref', 'paren'):
                 r_ = vt.unvar(r_.get('v'))
+            if isinstance(r_, dict) and fld(r_)[1] == 'attrs':
+                # the direct form: `<member>.attrs.retain(keep non-typeshare)` (possibly through a method of a helper trait)
+                stripped.append((r_, c['guard'], [], c.get('line')))
+                continue
             if not (isinstance(r_, dict) and r_.get('k') == 'elem' and isinstance(r_.get('of'), dict)):
                 continue
             outer_frames = [fr for fr in c['guard'] if fr.get('k') == 'if' and not fr.get('let_else_rest')]
